@@ -170,12 +170,22 @@ class Database:
             logger.info(
                 "Applying migration version %d (%s)", idx, migration.__name__
             )
-            await migration(self.conn)
-            await self.execute(
-                "insert into versions (version) values (?)",
-                str(idx),
-                commit=True,
-            )
+            # A migration and the record that it has been applied are one
+            # transaction. Otherwise a process that dies in between leaves
+            # tables behind that make the same migration fail ("table ...
+            # already exists") on every later start.
+            #
+            await self.conn.execute("BEGIN")
+            try:
+                await migration(self.conn)
+                await self.execute(
+                    "insert into versions (version) values (?)",
+                    str(idx),
+                    commit=True,
+                )
+            except BaseException:
+                await self.conn.rollback()
+                raise
 
     ####################################################################
     #
